@@ -136,7 +136,10 @@ def parseSeg (s : String) : Option SourceSegment :=
   match s.splitOn ":" with
   | [fileHex, bits] =>
     (bytesOfHex fileHex).bind fun file => (openStore file).map fun sf =>
-      { store := sf, codec := Compression.none, alive := aliveOf bits, hasDeletes := bits != "all" && bits.toList.any (· == '0') }
+      -- the segment as `open_with_custom_alive_set` presents it: `has_deletes()` is computed from
+      -- the alive set over `max_doc` documents
+      let maxDoc := ((checkpointsOf sf.index).getLast?.map (·.docEnd)).getD 0
+      SourceSegment.ofReader sf Compression.none none (if bits == "all" then none else some (aliveOf bits)) maxDoc
   | _ => none
 
 def handle : List String → String
